@@ -729,6 +729,10 @@ func main() {
 		racePass()
 		return
 	}
+	if id == "free" {
+		freePass()
+		return
+	}
 	r := ev.New(id)
 	if rp := os.Getenv("VERIF_REPLAY"); rp != "" {
 		replay(r, id, rp)
@@ -872,6 +876,25 @@ func main() {
 						r.Violation("free-running:"+fmt.Sprint(rr["class"]), fmt.Sprint(m), rr)
 					}
 				}
+			}
+		}
+	}
+	if fi := os.Getenv("VERIF_FREE_RESULT"); fi != "" && id == "C10" {
+		b, err := os.ReadFile(fi)
+		if err != nil {
+			ev.HarnessError("free-running conformance pass left no result: %v", err)
+		}
+		var rr map[string]any
+		if err := json.Unmarshal(b, &rr); err != nil {
+			ev.HarnessError("free-running conformance result unreadable: %v", err)
+		}
+		cov["free_running_conformance"] = rr
+		if v, ok := rr["outcomes_matching_reference"].(float64); ok {
+			traces = int64(v)
+		}
+		if v, ok := rr["violations"].(float64); ok && v > 0 {
+			for _, m := range rr["messages"].([]any) {
+				r.Violation("free-running:"+fmt.Sprint(rr["class"]), fmt.Sprint(m), rr)
 			}
 		}
 	}
